@@ -596,6 +596,7 @@ def run(cx):
     else:
         inf = float("inf")
         for label, v, bad in (("inf", inf, True), ("-inf", -inf, True), ("nan", float("nan"), True), ("2**64", 2 ** 64, True), ("-2**70", -2 ** 70, True), ("[1, inf]", [1, inf], True), ("(nan,)", (float("nan"),), True), ("[[inf]]", [[inf]], True),
+                              ("2**1024", 2 ** 1024, True), ("10**400", 10 ** 400, True), ("-10**400", -10 ** 400, True), ("[0, 10**400]", [0, 10 ** 400], True), ("(2**2000,)", (2 ** 2000,), True), ("2**1023", 2 ** 1023, True),
                               ("2**63", 2 ** 63, False), ("1.5", 1.5, False), ("True", True, False), ("'s'", "s", False), ("[1, 2.5]", [1, 2.5], False), ("1e308", 1e308, False), ("0", 0, False)):
             out = dl.Interp(pm).call(er, [v])
             r.check((out.kind == "raise" and out.value == "ValueError") if bad else out.kind == "return", f"_ensure_representable({label})", (pm, er), f"_ensure_representable({label}) -> {out!r}; expected {'ValueError' if bad else 'acceptance'}")
